@@ -36,12 +36,37 @@ pub enum Via {
     Owner,
     Clone,
     Alternate,
+    /// every command is sent by a task running on the arbiter's own thread, through
+    /// `Arbiter::current()`
+    Own,
+    /// odd commands are sent by a task on the arbiter's own thread, even ones by another thread
+    /// (hand over hand, so earlier commands are still queued when the own-thread send happens)
+    OwnAlternate,
+}
+
+#[derive(Clone, Copy, Debug, PartialEq, Eq)]
+enum Who {
+    Harness,
+    OtherThread,
+    OwnThread,
+}
+
+fn who(via: Via, idx: usize, k: usize) -> Who {
+    match via {
+        Via::Owner => Who::Harness,
+        Via::Clone => Who::OtherThread,
+        Via::Alternate => if (idx + k) % 2 == 1 { Who::OtherThread } else { Who::Harness },
+        Via::Own => Who::OwnThread,
+        Via::OwnAlternate => if idx % 2 == 1 { Who::OwnThread } else { Who::OtherThread },
+    }
 }
 
 #[derive(Clone, Copy, Debug, PartialEq, Eq)]
 pub enum Subject {
     ThreadArbiter,
     SystemArbiter,
+    /// `Arbiter::with_tokio_rt` handed a multi-threaded Tokio runtime (2 workers)
+    MtArbiter,
 }
 
 #[derive(Clone, Debug)]
@@ -58,10 +83,10 @@ fn case_json(c: &Case) -> Value {
 
 fn case_from(v: &Value) -> Case {
     Case {
-        subject: if v["subject"] == "SystemArbiter" { Subject::SystemArbiter } else { Subject::ThreadArbiter },
+        subject: if v["subject"] == "SystemArbiter" { Subject::SystemArbiter } else if v["subject"] == "MtArbiter" { Subject::MtArbiter } else { Subject::ThreadArbiter },
         cmds: v["cmds"].as_array().unwrap().iter().map(|c| match c.as_str().unwrap() { "F" => Cmd::F, "A" => Cmd::A, "P" => Cmd::P, "N" => Cmd::N, _ => Cmd::S }).collect(),
         batches: v["batches"].as_array().unwrap().iter().map(|b| b.as_u64().unwrap() as usize).collect(),
-        via: match v["via"].as_str().unwrap() { "Owner" => Via::Owner, "Clone" => Via::Clone, _ => Via::Alternate },
+        via: match v["via"].as_str().unwrap() { "Owner" => Via::Owner, "Clone" => Via::Clone, "Own" => Via::Own, "OwnAlternate" => Via::OwnAlternate, _ => Via::Alternate },
     }
 }
 
@@ -133,11 +158,19 @@ struct Observed {
 
 const FENCE_WAIT: Duration = Duration::from_secs(5);
 
-fn run_thread_arbiter(c: &Case) -> Observed {
+enum Instr {
+    Send(Cmd, usize),
+}
+
+fn run_thread_arbiter(c: &Case, multi_thread_rt: bool) -> Observed {
     let _runner = System::new();
     let sys_id = System::current().id();
     let log: Log = Arc::new(Mutex::new(vec![]));
-    let arb = Arbiter::new();
+    let arb = if multi_thread_rt {
+        Arbiter::with_tokio_rt(|| tokio::runtime::Builder::new_multi_thread().worker_threads(2).enable_all().build().unwrap())
+    } else {
+        Arbiter::new()
+    };
     let h = arb.handle();
     let mut notes = vec![];
     // probe: thread identity + exit flag
@@ -158,13 +191,19 @@ fn run_thread_arbiter(c: &Case) -> Observed {
     for bsize in &c.batches {
         let stopped = first_stop.is_some();
         // gate: block the arbiter thread while the batch is queued
-        let mut release: Option<Sender<()>> = None;
+        // the gate task also sends the commands that are to come from the arbiter's own thread
+        let mut release: Option<Sender<Instr>> = None;
+        let (ack_tx, ack_rx) = channel::<bool>();
         if !stopped {
             let (reached_tx, reached_rx) = channel::<()>();
-            let (rel_tx, rel_rx) = channel::<()>();
+            let (rel_tx, rel_rx) = channel::<Instr>();
+            let l = log.clone();
             h.spawn_fn(move || {
                 let _ = reached_tx.send(());
-                let _ = rel_rx.recv_timeout(Duration::from_secs(20));
+                while let Ok(Instr::Send(cmd, idx)) = rel_rx.recv_timeout(Duration::from_secs(20)) {
+                    let ok = Arbiter::try_current().map_or(false, |me| send(&me, cmd, idx, &l, sys_id));
+                    let _ = ack_tx.send(ok);
+                }
             });
             if reached_rx.recv_timeout(FENCE_WAIT).is_err() {
                 notes.push(format!("gate before command {idx} was not reached"));
@@ -174,12 +213,16 @@ fn run_thread_arbiter(c: &Case) -> Observed {
         let mut batch_has_stop = false;
         for k in 0..*bsize {
             let cmd = c.cmds[idx];
-            let other = match c.via {
-                Via::Owner => false,
-                Via::Clone => true,
-                Via::Alternate => (idx + k) % 2 == 1,
-            };
-            send_via(&h, other || arb.is_none(), cmd, idx, &log, sys_id);
+            match (who(c.via, idx, k), &release) {
+                (Who::OwnThread, Some(gate)) => {
+                    let _ = gate.send(Instr::Send(cmd, idx));
+                    match ack_rx.recv_timeout(FENCE_WAIT) {
+                        Ok(ok) => log.lock().unwrap().push(LogEv::Sent { idx, ok }),
+                        Err(_) => notes.push(format!("the task on the arbiter thread did not send command {idx}")),
+                    }
+                }
+                (w, _) => send_via(&h, w != Who::Harness || arb.is_none(), cmd, idx, &log, sys_id),
+            }
             if cmd == Cmd::S && first_stop.is_none() {
                 first_stop = Some(idx);
                 batch_has_stop = true;
@@ -189,9 +232,7 @@ fn run_thread_arbiter(c: &Case) -> Observed {
         // fence: a trailing task tells us the batch has been worked off (if the loop still runs)
         let (ftx, frx) = channel::<()>();
         let fence_sent = if first_stop.is_none() { h.spawn_fn(move || { let _ = ftx.send(()); }) } else { false };
-        if let Some(r) = release {
-            let _ = r.send(());
-        }
+        drop(release); // the gate task returns
         if fence_sent {
             if frx.recv_timeout(FENCE_WAIT).is_err() {
                 notes.push(format!("fence after command {} never ran although no stop was sent", idx - 1));
@@ -235,18 +276,38 @@ fn run_system_arbiter(c: &Case) -> Observed {
     let mut first_stop: Option<usize> = None;
     let mut fenced_upto = 0;
     for bsize in &c.batches {
-        for k in 0..*bsize {
-            let cmd = c.cmds[idx];
-            let other = match c.via {
-                Via::Owner => false,
-                Via::Clone => true,
-                Via::Alternate => (idx + k) % 2 == 1,
-            };
-            send_via(&h, other, cmd, idx, &log, sys_id);
-            if cmd == Cmd::S && first_stop.is_none() {
-                first_stop = Some(idx);
+        if matches!(c.via, Via::Own | Via::OwnAlternate) {
+            // the whole batch is sent from inside one task on the system thread; the commands of
+            // the other thread are sent while that task waits for them
+            let batch: Vec<(usize, Cmd, Who)> = (0..*bsize).map(|k| (idx + k, c.cmds[idx + k], who(c.via, idx + k, k))).collect();
+            let (l, h2) = (log.clone(), h.clone());
+            let sender = runner.runtime().spawn(async move {
+                for (i, cmd, w) in batch {
+                    match (w, Arbiter::try_current()) {
+                        (Who::OwnThread, Some(me)) => {
+                            let ok = send(&me, cmd, i, &l, sys_id);
+                            l.lock().unwrap().push(LogEv::Sent { idx: i, ok });
+                        }
+                        _ => send_via(&h2, true, cmd, i, &l, sys_id),
+                    }
+                }
+            });
+            let _ = runner.block_on(sender);
+            for _ in 0..*bsize {
+                if c.cmds[idx] == Cmd::S && first_stop.is_none() {
+                    first_stop = Some(idx);
+                }
+                idx += 1;
             }
-            idx += 1;
+        } else {
+            for k in 0..*bsize {
+                let cmd = c.cmds[idx];
+                send_via(&h, who(c.via, idx, k) != Who::Harness, cmd, idx, &log, sys_id);
+                if cmd == Cmd::S && first_stop.is_none() {
+                    first_stop = Some(idx);
+                }
+                idx += 1;
+            }
         }
         // the batch is worked off while the system thread runs its event loop for a while
         let (ftx, frx) = tokio::sync::oneshot::channel::<()>();
@@ -339,7 +400,8 @@ fn check(c: &Case, o: &Observed) -> Option<(String, String)> {
 pub fn run_case(c: &Case) -> Result<Option<(String, String)>, String> {
     let c2 = c.clone();
     let o = crate::with_watchdog(crate::WATCHDOG * 3, move || match c2.subject {
-        Subject::ThreadArbiter => run_thread_arbiter(&c2),
+        Subject::ThreadArbiter => run_thread_arbiter(&c2, false),
+        Subject::MtArbiter => run_thread_arbiter(&c2, true),
         Subject::SystemArbiter => run_system_arbiter(&c2),
     });
     match o {
@@ -401,7 +463,7 @@ fn block_on_matrix(bag: &mut VioBag) -> u64 {
     n
 }
 
-fn enumerate(max_len: usize, full_cut_len: usize) -> Vec<Case> {
+fn enumerate(max_len: usize, full_cut_len: usize, mt_len: usize) -> Vec<Case> {
     let mut out = vec![];
     for len in 1..=max_len {
         let mut seqs: Vec<Vec<Cmd>> = vec![];
@@ -430,11 +492,16 @@ fn enumerate(max_len: usize, full_cut_len: usize) -> Vec<Case> {
                 v
             };
             for b in cuts {
-                for via in [Via::Owner, Via::Clone, Via::Alternate] {
+                for via in [Via::Owner, Via::Clone, Via::Alternate, Via::Own, Via::OwnAlternate] {
                     out.push(Case { subject: Subject::ThreadArbiter, cmds: cmds.clone(), batches: b.clone(), via });
                 }
-                for via in [Via::Owner, Via::Clone] {
+                for via in [Via::Owner, Via::Clone, Via::Own, Via::OwnAlternate] {
                     out.push(Case { subject: Subject::SystemArbiter, cmds: cmds.clone(), batches: b.clone(), via });
+                }
+                if len <= mt_len {
+                    for via in [Via::Owner, Via::Clone, Via::OwnAlternate] {
+                        out.push(Case { subject: Subject::MtArbiter, cmds: cmds.clone(), batches: b.clone(), via });
+                    }
                 }
             }
         }
@@ -468,7 +535,8 @@ pub fn run(args: &Args) -> i32 {
     }
     let max_len = args.opt_usize("len", args.tier.pick(4, 6));
     let full_cut = args.opt_usize("cuts", args.tier.pick(4, 5));
-    let cases = enumerate(max_len, full_cut);
+    let mt_len = args.opt_usize("mtlen", args.tier.pick(3, 5));
+    let cases = enumerate(max_len, full_cut, mt_len);
     let mut bag = VioBag::default();
     let (mut with_stop, mut multi_batch, mut steps) = (0u64, 0u64, 0u64);
     // in chunks, so that a systematically failing tree (every case waiting for a watchdog) is
